@@ -159,6 +159,8 @@ func (w *LocalWorld) height(ctx sdk.Context, hc string) clienttypes.Height {
 		return clienttypes.ZeroHeight()
 	case "past":
 		return clienttypes.NewHeight(rev, 1)
+	case "next":
+		return clienttypes.NewHeight(rev, cur+1)
 	case "future":
 		return clienttypes.NewHeight(rev, cur+100000)
 	}
